@@ -110,6 +110,16 @@ def wSfArgsTwice : VWitness :=
                              { name := "r", ty := .ref "p" "R" {}, required := false }] [] none {} })],
     files := wFile [] [.structFieldsAsArguments (.byName "R.r") none, .structFieldsAsArguments (.byName "R.r") none] }
 
+/-- `map_to_index` on `items : map[ref K]string` makes the key (a struct reference) the option's first
+    argument; `struct_fields_as_options` then spreads the *key's* fields over options built around
+    `Assignments[0].Path`, which still indexes with `key` -/
+def wMapIndexSfOpts : VWitness :=
+  { ss := wSchema [
+      ("K", { name := "K", selfPkg := "p", selfName := "K", ty := .struct [{ name := "h", ty := wBool, required := false }] [] none {} }),
+      ("MK", { name := "MK", selfPkg := "p", selfName := "MK",
+               ty := .struct [{ name := "items", ty := .map (.ref "p" "K" {}) wStr {}, required := false }] [] none {} })],
+    files := wFile [] [.mapToIndex (.byName "MK.items"), .structFieldsAsOptions (.byName "MK.items") none] }
+
 def vWitness : String → Option VWitness
   | "dup-option-default" => some wDupOption
   | "dup-builder-default" => some wDupBuilder
@@ -123,6 +133,7 @@ def vWitness : String → Option VWitness
   | "map-index-promote" => some wMapIndexPromote
   | "append-then-map-to-index" => some wAppendThenMapToIndex
   | "sf-args-twice" => some wSfArgsTwice
+  | "map-index-sf-opts" => some wMapIndexSfOpts
   | _ => none
 
 end Cog.Builder
